@@ -310,6 +310,9 @@ LIST_TPL = {
     'starts-with-tag': [O('m', RX), "\nr", H(1, 'txt'), "\n", C('m'), "\nB\n", O('t', RT), "x", C('t'), O('m', RX), "y", C('m'), H(1, 'txt'), "\n"],
     'adjacent-inline': ["a", O('m', RX), "x", C('m'), O('t', RT), "y", C('t'), O('m', PN), "p", C('m'), H(1, 'txt'), O('t', RT), "z", C('t'), "\nB\n"],
     'leading-line-break-then-tag': ["\n", H(1, 'ind'), O('m', RX), "\nr\n", C('m'), "\nB", H(1, 'txt'), "\n"],
+    # tags spread over several lines: the one-byte end delimiter is the first byte of a line (the region's last line is that line)
+    'multi-line-tags-block': ["A\n", H(1, 'ind'), O('m', RX + "\n"), "\nr\n", C('m', "\n"), H(1, 'txt'), "\nB\n"],
+    'multi-line-tags-inline': ["a ", O('t', RT + "\n"), "x", C('t', "\n"), H(1, 'txt'), " b\n", O('m', PN + "\n"), "p", C('m', "\n"), "\nB\n"],
     'leading-line-break': ["\n", H(1, 'ind'), "A\n", O('m', RX), "\nr\n", C('m'), "\nB\n"],
 }
 
